@@ -1152,7 +1152,7 @@ func streamCache(o opts, focus string) {
 			}
 		}
 		r := newCacheRun(m, rng, t, conf, lst, wmode, focus)
-		r.forceQueue = t%3 == 1 && focus != "C09"
+		r.forceQueue = t%3 == 1
 		w.T(sidCache, r.cfgToks())
 		capTotal := conf.MaxSize
 		if capTotal == 0 {
